@@ -7,7 +7,10 @@ from vlib import common as C
 from vlib import x_atomic
 
 INT_TYPES = ['u8', 'i8', 'u16', 'i16', 'u32', 'i32', 'u64', 'i64']
-BITS = {'u8': 8, 'i8': 8, 'u16': 16, 'i16': 16, 'u32': 32, 'i32': 32, 'u64': 64, 'i64': 64}
+BITS = {'u8': 8, 'i8': 8, 'u16': 16, 'i16': 16, 'u32': 32, 'i32': 32, 'u64': 64, 'i64': 64, 'vu8': 8, 'vi32': 32, 'vu64': 64}
+VOLATILE = ['vu8', 'vi32', 'vu64', 'vbool', 'vptr', 'vf64', 'vflag']
+CAS_S = ['cas_strong', 'cas_strong3', 'cas_strong4r']
+CAS_W = ['cas_weak', 'cas_weak3', 'cas_weak4r']
 ARITH1 = ['fetch_add', 'fetch_sub', 'add_assign', 'sub_assign']
 BIT1 = ['fetch_and', 'fetch_or', 'fetch_xor', 'and_assign', 'or_assign', 'xor_assign']
 INC = ['pre_inc', 'post_inc', 'pre_dec', 'post_dec']
@@ -27,23 +30,26 @@ F32 = [0, 0x3f800000, 0x40000000, 0xbf800000, 0x3dcccccd, 0x7f7fffff, 0x00000001
 
 def gen_sequence(ty, rng, length):
     lines = []
+    vol = ty in VOLATILE
+    cas = [] if vol else CAS_S + CAS_W      # volatile compare_exchange / ++ / -- of the fault layer do not compile
+    inc = [] if vol else INC
     if ty in BITS:
         val = lambda: str(boundary(BITS[ty], rng))
-        ops = ['store', 'load', 'exchange', 'cas_strong', 'cas_weak'] + ARITH1 + BIT1 + INC
-    elif ty == 'bool':
+        ops = ['store', 'load', 'exchange'] + cas + ARITH1 + BIT1 + inc
+    elif ty in ('bool', 'vbool'):
         val = lambda: str(rng.randrange(2))
-        ops = ['store', 'load', 'exchange', 'cas_strong', 'cas_weak']
-    elif ty == 'ptr':
+        ops = ['store', 'load', 'exchange'] + cas
+    elif ty in ('ptr', 'vptr'):
         val = lambda: str(rng.choice([0, 1, -1, 7, -8, 100, -100, rng.randrange(-500, 500)]))
-        ops = ['store', 'load', 'exchange', 'cas_strong', 'cas_weak'] + ARITH1 + INC
-    elif ty == 'f64':
+        ops = ['store', 'load', 'exchange'] + cas + ARITH1 + inc
+    elif ty in ('f64', 'vf64'):
         val = lambda: str(rng.choice(F64))
-        ops = ['store', 'load', 'exchange', 'cas_strong', 'cas_weak'] + ARITH1
+        ops = ['store', 'load', 'exchange'] + cas + ARITH1
     elif ty == 'f32':
         val = lambda: str(rng.choice(F32))
-        ops = ['store', 'load', 'exchange', 'cas_strong', 'cas_weak'] + ARITH1
-    elif ty == 'flag':
-        lines.append('new flag %d' % rng.randrange(2))
+        ops = ['store', 'load', 'exchange'] + cas + ARITH1
+    elif ty in ('flag', 'vflag'):
+        lines.append('new %s %d' % (ty, rng.randrange(2)))
         for _ in range(length):
             lines.append(rng.choice(['test_and_set', 'clear', 'test_and_set']))
         return lines
@@ -55,13 +61,15 @@ def gen_sequence(ty, rng, length):
             lines.append('%s %s' % (op, val()))
         elif op == 'load' or op in INC:
             lines.append(op)
-        elif op in ('cas_strong', 'cas_weak'):
-            # half of the time expect the value an earlier op is likely to have left (so that successes happen)
+        elif op in CAS_S or op in CAS_W:
             e = val()
             l = '%s %s %s' % (op, e, val())
-            if op == 'cas_weak':
+            if op in CAS_W:
                 l += ' %d' % (1 if rng.random() < 0.3 else 0)
             lines.append(l)
+            if rng.random() < 0.5:
+                # retry with the same (stale) `expected`: a spurious failure must have written the current value back
+                lines.append(l.rsplit(' ', 1)[0] + ' 0' if op in CAS_W else l)
         else:
             lines.append('%s %s' % (op, val()))
     return lines
@@ -69,13 +77,19 @@ def gen_sequence(ty, rng, length):
 
 def gen_exact_cas(ty, rng):
     """sequences in which the CAS expects exactly the stored value (success paths)"""
-    if ty == 'flag':
-        return gen_sequence(ty, rng, 3)
+    if ty in ('flag', 'vflag'):
+        return gen_sequence(ty, rng, 4)
+    if ty in VOLATILE:
+        return gen_sequence(ty, rng, 5)
     bits = BITS.get(ty)
     v = str(boundary(bits, rng)) if bits else {'bool': '1', 'ptr': '5', 'f64': str(F64[1]), 'f32': str(F32[1])}[ty]
     d = str(boundary(bits, rng)) if bits else {'bool': '0', 'ptr': '-2', 'f64': str(F64[2]), 'f32': str(F32[2])}[ty]
-    return ['new %s %s' % (ty, v), 'cas_strong %s %s' % (v, d), 'load', 'cas_weak %s %s 0' % (d, v), 'load',
-            'cas_weak %s %s 1' % (v, d), 'load', 'cas_strong %s %s' % (d, v)]
+    w = rng.choice(CAS_W)
+    st = rng.choice(CAS_S)
+    # success paths, then a spurious failure with a WRONG expected followed by a retry that must now succeed
+    return ['new %s %s' % (ty, v), '%s %s %s' % (st, v, d), 'load', '%s %s %s 0' % (w, d, v), 'load',
+            '%s %s %s 1' % (w, v, d), 'load', '%s %s %s' % (st, d, v), '%s %s %s 1' % (w, d, v), '%s %s %s 0' % (w, v, d),
+            'load']
 
 
 def run_stream(cmd, text):
@@ -134,7 +148,7 @@ def corpus_lines():
 def differential(res, lines, with_model):
     """returns (property_failures, correspondence_failures, stats)"""
     text = '\n'.join(lines) + '\n'
-    h = C.build_harness('c19', 'fiber', ['c19.cpp'], define_verif=False)
+    h = C.build_harness('c19', 'fiber', ['c19.cpp'], define_verif=False, extra_flags=['-Wno-volatile'])
     outs = {impl: run_stream([h, impl], text) for impl in ('std', 'fiber', 'thread')}
     drv = os.path.join(C.LEAN, '.lake/build/bin/ymdriver_atomic')
     if with_model:
@@ -151,7 +165,7 @@ def differential(res, lines, with_model):
     for idxs in seqs:
         ty = lines[idxs[0]].split()[1]
         stats['types'][ty] = stats['types'].get(ty, 0) + 1
-        modelled = with_model and ty not in ('f32', 'f64', 'flag')
+        modelled = with_model and ty not in ('f32', 'f64', 'flag', 'vf64', 'vflag')
         for i in idxs:
             op = lines[i].split()[0]
             stats['ops'][op] = stats['ops'].get(op, 0) + 1
@@ -160,7 +174,7 @@ def differential(res, lines, with_model):
                 stats['cas_success'] += 1
             elif o.startswith('cas 0'):
                 stats['cas_fail'] += 1
-            if op == 'cas_weak' and lines[i].endswith(' 1'):
+            if op in CAS_W and lines[i].endswith(' 1'):
                 stats['spurious'] += 1
             if o == 'bad-op':
                 stats['bad_op'] += 1
@@ -188,6 +202,7 @@ def run(res, tier):
         'single-threaded op sequences (the property is about values, not interleavings)',
         'signed overflow in the fiber implementation is undefined behaviour in C++; the model and the compared binaries wrap (two\'s complement), as every supported compiler does',
         'floating-point carriers are compared between the three C++ implementations only (the theorems are parametric in the carrier)',
+        'volatile objects: the fault layer\'s volatile compare_exchange_* (fiber) and ++/-- (wrapper) overloads do not compile when instantiated, so they are not exercised; all other volatile overloads are',
     ]
     text, xerr = extract()
     broken = []
@@ -199,7 +214,7 @@ def run(res, tier):
     # ---- correspondence / failing-input search
     nseq = 1500 if tier == 'quick' else 40000
     lines = corpus_lines()
-    types = INT_TYPES + ['bool', 'ptr', 'f64', 'f32', 'flag']
+    types = INT_TYPES + ['bool', 'ptr', 'f64', 'f32', 'flag'] + VOLATILE
     for ty in types:
         for _ in range(20 if tier == 'quick' else 200):
             lines += gen_exact_cas(ty, rng)
@@ -217,7 +232,7 @@ def run(res, tier):
     lines += ['new u8 1', 'bogus 1', 'fetch_add', 'new zz 1', 'load']  # malformed stream
     drv_ok = os.path.exists(os.path.join(C.LEAN, '.lake/build/bin/ymdriver_atomic'))
     prop_fail, corr_fail, stats, seqs = differential(res, lines, with_model=drv_ok)
-    h = C.build_harness('c19', 'fiber', ['c19.cpp'], define_verif=False)
+    h = C.build_harness('c19', 'fiber', ['c19.cpp'], define_verif=False, extra_flags=['-Wno-volatile'])
 
     def fails_prop(cand):
         t = '\n'.join(cand) + '\n'
@@ -262,7 +277,7 @@ def run(res, tier):
 
 def replay(path):
     lines = [l.strip() for l in open(path) if l.strip() and not l.startswith('#')]
-    h = C.build_harness('c19', 'fiber', ['c19.cpp'], define_verif=False)
+    h = C.build_harness('c19', 'fiber', ['c19.cpp'], define_verif=False, extra_flags=['-Wno-volatile'])
     t = '\n'.join(lines) + '\n'
     outs = {impl: run_stream([h, impl], t) for impl in ('std', 'fiber', 'thread')}
     bad = 0
